@@ -186,7 +186,8 @@ impl Geom {
             _ => 4,
         };
         g.reserved = if fat32 { *rng.pick(&[2u32, 7, 32, 33]) } else { *rng.pick(&[1u32, 1, 2, 8, 32]) };
-        g.root_entries = if fat32 { 0 } else { *rng.pick(&[16u32, 32, 112, 224, 512]) };
+        // (counts that do not fill their last sector are legal: the root region is rounded up)
+        g.root_entries = if fat32 { 0 } else { *rng.pick(&[16u32, 32, 112, 224, 512, 24, 100, 500, 1000]) };
         g.fat_extra = if rng.chance(1, 4) { 1 + rng.below(2) as u32 } else { 0 };
         g.tail = if spc > 1 && rng.chance(1, 2) { rng.below(spc as u64) as u32 } else { 0 };
         g.part_slot = rng.usize_below(4);
